@@ -18,8 +18,12 @@
 package splunk
 
 import (
+	"bytes"
 	"encoding/json"
 	"fmt"
+	"io"
+	"math"
+	"strconv"
 
 	"github.com/siglens/siglens/pkg/config"
 	writer "github.com/siglens/siglens/pkg/es/writer"
@@ -48,7 +52,7 @@ func ProcessSplunkHecIngestRequest(ctx *fasthttp.RequestCtx, myid int64) {
 		return
 	}
 
-	jsonObjects, err := utils.ExtractSeriesOfJsonObjects(body)
+	jsonObjects, err := extractHecObjects(body)
 	if err != nil {
 		utils.SendError(ctx, "Unable to read json request", "", err)
 		return
@@ -98,6 +102,24 @@ func ProcessSplunkHecIngestRequest(ctx *fasthttp.RequestCtx, myid int64) {
 	ctx.SetStatusCode(fasthttp.StatusOK)
 }
 
+// like utils.ExtractSeriesOfJsonObjects, but numbers stay as written (float64 rounds integers above 2^53)
+func extractHecObjects(body []byte) ([]map[string]interface{}, error) {
+	var objects []map[string]interface{}
+	decoder := json.NewDecoder(bytes.NewReader(body))
+	decoder.UseNumber()
+	for {
+		var obj map[string]interface{}
+		if err := decoder.Decode(&obj); err != nil {
+			if err == io.EOF {
+				break
+			}
+			return nil, fmt.Errorf("extractHecObjects: error decoding JSON: %v", err)
+		}
+		objects = append(objects, obj)
+	}
+	return objects, nil
+}
+
 func getPLE(record map[string]interface{}, myid int64, tsKey *string, jsParsingStackbuf []byte) (error, int, *segwriter.ParsedLogEvent) {
 	if record["index"] == "" || record["index"] == nil {
 		record["index"] = "default"
@@ -106,6 +128,15 @@ func getPLE(record map[string]interface{}, myid int64, tsKey *string, jsParsingS
 	indexNameIn, ok := record["index"].(string)
 	if !ok {
 		return fmt.Errorf("Index field should be a string"), fasthttp.StatusBadRequest, nil
+	}
+
+	// HEC carries the event time in "time" (epoch seconds, possibly fractional)
+	if _, hasTs := record[*tsKey]; !hasTs {
+		if hecTime, ok := record["time"]; ok {
+			if secs, err := strconv.ParseFloat(fmt.Sprintf("%v", hecTime), 64); err == nil && secs > 0 {
+				record[*tsKey] = uint64(math.Round(secs * 1000))
+			}
+		}
 	}
 
 	recordAsBytes, err := json.Marshal(record)
